@@ -104,22 +104,78 @@ def valuations(names: Iterable[str], limit: int = 14):
         yield dict(zip(names, bits))
 
 
-def implies(f, g, axioms=T) -> bool:
-    for v in valuations(atoms(f) | atoms(g) | atoms(axioms)):
-        if evaluate(axioms, v) and evaluate(f, v) and not evaluate(g, v):
+def _eval3(f, val):
+    """three-valued evaluation under a partial valuation"""
+    k = f[0]
+    if k == "T":
+        return True
+    if k == "F":
+        return False
+    if k == "atom":
+        return val.get(f[1])
+    if k == "not":
+        v = _eval3(f[1], val)
+        return None if v is None else (not v)
+    if k == "and":
+        unk = False
+        for g in f[1:]:
+            v = _eval3(g, val)
+            if v is False:
+                return False
+            if v is None:
+                unk = True
+        return None if unk else True
+    unk = False
+    for g in f[1:]:
+        v = _eval3(g, val)
+        if v is True:
+            return True
+        if v is None:
+            unk = True
+    return None if unk else False
+
+
+def _sat(f, names, val, budget):
+    v = _eval3(f, val)
+    if v is not None:
+        return v
+    budget[0] -= 1
+    if budget[0] < 0:
+        raise TooManyAtoms("search budget exhausted")
+    for n in names:
+        if n not in val:
+            for b in (True, False):
+                val[n] = b
+                if _sat(f, names, val, budget):
+                    del val[n]
+                    return True
+            del val[n]
             return False
-    return True
+    return False
+
+
+def satisfiable(f, axioms=T) -> bool:
+    g = And(axioms, f)
+    # split on atoms in order of first appearance (conjunct literals first: they are decided at once)
+    names = []
+
+    def collect(h):
+        if h[0] == "atom":
+            if h[1] not in names:
+                names.append(h[1])
+        elif h[0] not in ("T", "F"):
+            for x in h[1:]:
+                collect(x)
+    collect(g)
+    return _sat(g, names, {}, [2000000])
+
+
+def implies(f, g, axioms=T) -> bool:
+    return not satisfiable(And(f, Not(g)), axioms)
 
 
 def equivalent(f, g, axioms=T) -> bool:
     return implies(f, g, axioms) and implies(g, f, axioms)
-
-
-def satisfiable(f, axioms=T) -> bool:
-    for v in valuations(atoms(f) | atoms(axioms)):
-        if evaluate(axioms, v) and evaluate(f, v):
-            return True
-    return False
 
 
 def show(f) -> str:
